@@ -114,21 +114,21 @@ def runStmt : Nat → Node → EM TV
     | .cont _ => do modTask (fun t => { t with cont := true }); pure voidTV
     | e => ev e
 
-/-- `RunStmts` -/
+/-- `RunStmts`: before each statement test exit/signal/break/continue; an error sets procExit -/
 def runStmts : Nat → List Node → EM Unit
   | 0, _ => outOfFuel
   | _, [] => pure ()
   | f+1, n :: rest => fun s =>
-    match runStmt f n s with
-    | .ok _ s' =>
-      match stmtReturn env s' with
-      | .ok true s'' => .ok () s''
-      | .ok false s'' => runStmts f rest s''
-      | .err e s'' => .err e s''
-      | .panic m => .panic m
-      | .fuel => .fuel
-      | .need q => .need q
-    | .err e s' => .err e { s' with task := { s'.task with exit := true } }
+    match stmtReturn env s with
+    | .ok true s' => .ok () s'
+    | .ok false s' =>
+      (match runStmt f n s' with
+       | .ok _ s'' => runStmts f rest s''
+       | .err e s'' => .err e { s'' with task := { s''.task with exit := true } }
+       | .panic m => .panic m
+       | .fuel => .fuel
+       | .need q => .need q)
+    | .err e s' => .err e s'
     | .panic m => .panic m
     | .fuel => .fuel
     | .need q => .need q
